@@ -104,8 +104,14 @@ extern ssize_t mpt_encode_cobs(MPT_STRUCT(encode_state) *info, const struct iove
 		struct iovec tmp;
 		ssize_t pos = info->done;
 		
-		/* message in progress */
+		/* message in progress: starts behind the finished messages,
+		 * its finished blocks are part of it */
 		if (info->_ctx) {
+			size_t curr = info->done + info->scratch;
+			if (info->_ctx > curr) {
+				return MPT_ERROR(BadValue);
+			}
+			pos = curr - info->_ctx;
 			--len;
 		}
 		tmp.iov_base = (void *) src;
